@@ -57,6 +57,15 @@ enum Shape { Empty, Circle(f64), Rect { w: u16, h: u16 }, Named(String, Box<Shap
 struct Node { val: u64, next: Option<Box<Node>> }
 union Bits { i: u64, f: f64 }
 
+// the debuggee's only source of randomness (std's hash-map keys) goes behind a seam too: std looks
+// `getrandom` up as a weak symbol, so this definition decides the keys, and with them the
+// bucket indices the hash-map code leaves behind in dead stack slots
+#[unsafe(no_mangle)]
+pub extern "C" fn getrandom(buf: *mut u8, len: usize, _flags: u32) -> isize {
+    for i in 0..len { unsafe { *buf.add(i) = (i as u8).wrapping_mul(37).wrapping_add(11) } }
+    len as isize
+}
+
 #[inline(never)]
 fn stop_here(n: u64) -> u64 { std::hint::black_box(n) + 1 }
 
@@ -113,7 +122,7 @@ fn main() {
 "#;
 
 pub fn arena_program(toolchain: &str) -> ProgramSpec {
-    ProgramSpec { family: "arena".into(), toolchain: toolchain.into(), opt_level: 0, pie: true, src: ARENA_SRC.into(), functions: vec!["arena".into(), "stop_here".into()], extra_args: vec![] }
+    ProgramSpec { family: "arena".into(), toolchain: toolchain.into(), opt_level: 0, pie: true, src: ARENA_SRC.into(), functions: vec!["arena".into(), "stop_here".into()], extra_args: vec!["-C".into(), "link-arg=-Wl,--export-dynamic-symbol=getrandom".into()] }
 }
 
 const NAMES: &[&str] = &["small", "neg", "wide", "ratio", "flag", "letter", "unit", "pair", "point", "shapes", "numbers", "nested", "text", "slice", "word", "map", "set", "tree", "tset", "ring", "boxed", "shared", "shared2", "atomic", "list", "maybe", "nothing", "raw_ptr", "bits", "zst", "unit_ref", "closure", "seed", "r", "acc", "nosuch"];
@@ -204,21 +213,26 @@ fn poison(t: &mut Tape, pid: i32, log: &mut Vec<String>) {
     let len = 512 + 512 * t.choose(8) as u64;
     let Some(frame) = ns::read_mem(pid, lo, len as usize) else { return };
     let kind = t.choose(9);
+    // every further decision of this fault comes from one tape value, hashed with the index of
+    // the word it concerns: the tape advances by the same amount whatever the memory holds, and
+    // the fate of a word does not depend on what other words happen to contain
+    let fseed = t.choose(1 << 30) as u64;
+    let h = |k: u64, salt: u64| -> u64 { crate::rng::derive(fseed ^ (salt << 40), "poison", k) };
     let mut out = frame.clone();
     if kind >= 6 {
         // field-level corruption: words that look like lengths / capacities / small counters
         // are zeroed, maximised or bumped one by one (everything else stays well formed)
         let mut n = 0;
-        for w in out.chunks_mut(8) {
+        for (k, w) in out.chunks_mut(8).enumerate() {
             if w.len() < 8 {
                 continue;
             }
             let v = u64::from_le_bytes(w.try_into().unwrap());
-            if (1..=64).contains(&v) && t.chance(1, 4) {
+            if (1..=64).contains(&v) && h(k as u64, 1) % 4 == 0 {
                 let nv: u64 = match kind {
                     6 => 0,
                     7 => u64::MAX,
-                    _ => v + 1 + t.choose(3) as u64,
+                    _ => v + 1 + h(k as u64, 2) % 3,
                 };
                 w.copy_from_slice(&nv.to_le_bytes());
                 n += 1;
@@ -230,25 +244,26 @@ fn poison(t: &mut Tape, pid: i32, log: &mut Vec<String>) {
     }
     let heap: Vec<u64> = frame.chunks(8).filter_map(|c| c.try_into().ok().map(u64::from_le_bytes)).filter(|v| *v > 0x5555_0000_0000 && *v < 0x5556_0000_0000).collect();
     for (k, w) in out.chunks_mut(8).enumerate() {
-        if w.len() < 8 || !t.chance(1, 3) {
+        if w.len() < 8 || h(k as u64, 3) % 3 != 0 {
             continue;
         }
+        let r = h(k as u64, 4);
         let v: u64 = match kind {
             0 => u64::MAX,
             1 => 0,
             2 => lo + 8 * k as u64,                                   // points at itself
-            3 => [8u64, 0xdead_beef_0000, 0x7fff_ffff_f000, 1][t.choose(4)],    // dangling
-            4 => (t.choose(1 << 16) as u64) << (8 * t.choose(7)),      // random
-            _ => if heap.is_empty() { 1 << 63 } else { heap[t.choose(heap.len())] }, // aliasing heap pointers
+            3 => [8u64, 0xdead_beef_0000, 0x7fff_ffff_f000, 1][(r % 4) as usize],    // dangling
+            4 => ((r >> 8) % (1 << 16)) << (8 * (r % 7)),             // random
+            _ => if heap.is_empty() { 1 << 63 } else { heap[(r % heap.len() as u64) as usize] }, // aliasing heap pointers
         };
         w.copy_from_slice(&v.to_le_bytes());
     }
     write_mem(pid, lo, &out);
     // and some of the heap blocks the frame pointed to
-    for h in heap.iter().take(6) {
-        if t.chance(1, 2) {
+    for (j, hp) in heap.iter().take(6).enumerate() {
+        if h(j as u64, 5) % 2 == 0 {
             let pat: Vec<u8> = (0..64).map(|k| if kind % 2 == 0 { 0xff } else { (k * 37 + kind) as u8 }).collect();
-            write_mem(pid, *h, &pat);
+            write_mem(pid, *hp, &pat);
         }
     }
     log.push(format!("    fault: poisoned {len} bytes of the frame at rsp (pattern {kind}) and {} heap blocks", heap.len().min(6)));
